@@ -81,6 +81,21 @@ def generate(batch: str, r: Rng, idx: int, tier: str) -> Dict[str, Any]:
     # which interface carries the history: the register files themselves, or the objects a machine holds them in —
     # the CPU facade (cpu.regs, snapshot_registers / apply_snapshot) and CoreRuntime's string-keyed set_reg / get_reg
     ra = r.child("api")
+    if batch == "bundle" and r.child("chain").chance(1, 3):
+        # a chain of restarts: a register restored from a bundle is written again (to zero as well) before the next
+        # bundle is taken from the restored machine — the second bundle must carry the new value, not the first one's
+        rc = r.child("chain-ops")
+        pre: List[list] = []
+        picks = rc.sample(TEMPS, 3) + rc.sample(["BA", "I", "X", "Y", "U", "S"], 2)
+        for name in picks:
+            pre.append(["set", name, rc.range(1, 0xFFFF)])
+        pre.append(["restart", "apply"])
+        for name in picks:
+            pre.append(["set", name, 0 if rc.chance(2, 3) else rc.range(1, 0xFFFF)])
+        pre.append(["restart", "apply"])
+        for name in picks + TEMPS:
+            pre.append(["get", name])
+        ops = pre + ops
     if batch == "bundle":
         # the register file inside a whole machine; a restart is the real bundle on disk (save_snapshot -> a freshly
         # constructed machine's load_snapshot) on both sides
